@@ -46,9 +46,15 @@ def plan(tier, seed):
             if samp == 'square' and lay in ('bore', 'one_off', 'one_two_dirs'):
                 continue
             cases.append({'nside': nside, 'kind': kind, 'lay': lay, 'samp': samp})
+    # psi many turns away from [0, 2 pi) (a continuously rotating instrument); 64-bit modes only: float32 cannot hold such
+    # angles to better than 1e-3 rad, so nothing could be concluded there
+    big = [dict(c, samp='bigpsi') for c in cases if c['samp'] == 'grid'][:: (1 if tier == 'thorough' else 3)]
+    c64 = (cases if tier == 'thorough' else cases[::2]) + big
     return [
         {'name': 'x32', 'target': TARGET, 'x64': False, 'cases': cases, 'chunk': 2},
-        {'name': 'x64', 'target': TARGET, 'x64': True, 'cases': cases if tier == 'thorough' else cases[::2], 'chunk': 2},
+        {'name': 'x64', 'target': TARGET, 'x64': True, 'cases': c64, 'chunk': 2},
+        # 64-bit mode switched on after furax was imported (mc.pool.worker_init): same cases, same oracles
+        {'name': 'x64late', 'target': TARGET, 'x64': 'late', 'cases': c64[1:: (2 if tier == 'thorough' else 3)], 'chunk': 2},
     ]
 
 
@@ -121,6 +127,9 @@ def run(phase, cases, ctx):
             pts = grid
         elif case['samp'] == 'perm':
             pts = [grid[(i * 37) % len(grid)] for i in range(0, len(grid), 5)]
+        elif case['samp'] == 'bigpsi':
+            turns = [1500, -1499, 40001, -7, 3]
+            pts = [(t, f, p + 2 * math.pi * turns[(i * 3 + 1) % 5]) for i, (t, f, p) in enumerate(grid[(i * 37) % len(grid)] for i in range(0, len(grid), 5))]
         elif case['samp'] == 'square':   # number of samples == number of detectors (filled up after border filtering)
             pts = [grid[(i * 53 + 7) % len(grid)] for i in range(4 * len(xs))]
         else:
@@ -172,6 +181,23 @@ def run(phase, cases, ctx):
                     break
             else:
                 counters['projections_ok'] += 1
+            if case['samp'] in ('perm', 'single', 'square', 'bigpsi'):
+                # the same operators BUILT inside a jitted function from traced pointing arrays
+                def built_inside(t_, f_, p_, sky_):
+                    s_ = Sampling(t_, f_, p_)
+                    return create_projection_operator(land, s_, dets).mv(sky_), create_acquisition(land, s_, dets).mv(sky_)
+
+                outj, acqj = P.lib('projection and acquisition built under jax.jit from traced pointing', jax.jit(built_inside),
+                                   jnp.asarray(th, D), jnp.asarray(ph, D), jnp.asarray(ps, D), sky)
+                for c in kind:
+                    got = np.asarray(getattr(outj, c.lower()), float)
+                    if got.shape != tod_shape or not P.close(got, exp[c], tol):
+                        violations.append({'kind': 'projection-built-under-jit', 'case': case, 'detail': f'component {c}: shape {got.shape} vs {tod_shape}; max diff {P.maxdiff(got, exp[c]) if got.shape == exp[c].shape else "n/a"}'})
+                        break
+                else:
+                    counters['built_under_jit_ok'] += 1
+            else:
+                acqj = None
             # acquisition
             try:
                 H = create_acquisition(land, samplings, dets)
@@ -191,6 +217,8 @@ def run(phase, cases, ctx):
                     violations.append({'kind': 'acquisition-values', 'case': case, 'detail': f'shape {got.shape} vs {tod_shape}; max diff {P.maxdiff(got, want) if got.shape == want.shape else "n/a"}'})
                 else:
                     counters['acquisitions_ok'] += 1
+                if acqj is not None and (np.asarray(acqj).shape != tod_shape or not P.close(np.asarray(acqj, float), want, tol)):
+                    violations.append({'kind': 'acquisition-built-under-jit', 'case': case, 'detail': f'max diff {P.maxdiff(np.asarray(acqj, float), want) if np.asarray(acqj).shape == want.shape else "n/a"}'})
                 # before reduction: the same chain unreduced
                 from furax.operators.hwp import HWPOperator
                 from furax.operators.polarizers import LinearPolarizerOperator
@@ -259,7 +287,7 @@ def finalize(results, tier, seed):
         samples += r['samples'][:1]
         n += r['n']
     cov = {'evaluations': n, 'distinct_nontrivial': len(nontrivial), 'samples': samples, 'exhaustive': True,
-           'projections_ok': counters['projections_ok'], 'acquisitions_ok': counters['acquisitions_ok'], 'hitcount_checks': counters['hitcount_checks'],
+           'projections_ok': counters['projections_ok'], 'acquisitions_ok': counters['acquisitions_ok'], 'hitcount_checks': counters['hitcount_checks'], 'built_under_jit_ok': counters['built_under_jit_ok'],
            'samples_removed_near_border': counters['samples_removed_near_border'], 'pointings_per_grid': len(THETA) * len(PHI) * len(PSI),
            'rule': 'one case = (nside, Stokes kind, detector layout, sampling) per 64-bit mode; every case compares >= 100 (detector, sample) '
                    'pairs per component with the independent pointing model'}
